@@ -674,3 +674,37 @@ def explore_task(ctx, cancel_in_handlers=False):
 
 def witness(state, fi):
     return fmt_trace(state, fi.module)
+
+
+
+def rule_enqueue_binding(ctx, r):
+    """Scheduler.enqueue_task hands each of its parameters, unchanged, to the same-named parameter of the task coroutine."""
+    idx = ctx.index
+    enq = idx.func(f"{LOCAL}:Scheduler.enqueue_task")
+    th = idx.func(f"{LOCAL}:Scheduler.try_handle_task")
+    ok = False
+    passed = []
+    for c in _calls(enq.node):
+        if isinstance(c.func, ast.Attribute) and c.func.attr == th.name:
+            want = th.positional_params()[1:]
+            got = [dotted(a) for a in c.args]
+            kw = {k.arg: dotted(k.value) for k in c.keywords}
+            ok = (got == want[: len(got)] and all(kw.get(k, k) == k for k in kw)) and (len(got) + len(kw) == len(want))
+            passed = [g for g in got if g] + [v for v in kw.values() if v]
+    r.check(ok, f"{enq.module.relpath}::{enq.qual}::binding", "enqueue_task passes each of its parameters to the same-named parameter of the task coroutine",
+            "enqueue_task binds its arguments to the wrong parameters of the task coroutine (e.g. deps and time_limit swapped)", enq.where)
+    params = set(enq.positional_params()[1:])
+    rebound = []
+    for n in walk_no_nested(enq.node):
+        tgts = []
+        if isinstance(n, ast.Assign):
+            tgts = n.targets
+        elif isinstance(n, (ast.AugAssign, ast.AnnAssign, ast.For)):
+            tgts = [n.target]
+        for t in tgts:
+            for x in ast.walk(t):
+                if isinstance(x, ast.Name) and x.id in params and x.id in passed:
+                    rebound.append((x.id, n))
+    r.check(not rebound, f"{enq.module.relpath}::{enq.qual}::unchanged", "the caller's values reach the coroutine unchanged (no parameter is rebound on the way)",
+            f"enqueue_task rebinds `{rebound[0][0] if rebound else ''}` before handing it to the task coroutine (`{ast.unparse(rebound[0][1])[:70] if rebound else ''}`): e.g. prerequisites "
+            "that already finished are dropped, so a failed/cancelled prerequisite is never examined and the dependent runs", loc(rebound[0][1], enq.module) if rebound else enq.where)
